@@ -278,6 +278,34 @@ def corruption_table(ctx: Ctx, g1):
         ctx.unknown("R17.c", site, str(e))
     except KeyError as e:
         ctx.unknown("R17.c", site, f"corruption {e} not available")
+    # the same through the package-level loader and a *path*: what is loaded is what the file holds now, not what an earlier
+    # load of the same path returned
+    site = f"{LOAD}::corruption::same path loaded again after the file changed"
+    try:
+        if prog.func_opt("__init__.py::load_xml") is None:
+            ctx.note("no package-level load_xml(filename): path histories not applicable")
+        else:
+            docs = {}
+            h = X.harness(prog, documents=docs)
+            verdicts = []
+            docs["def.xml"] = clone_tree(g1)
+            attach_nsmap(docs["def.xml"])
+            k1, d1 = h.outcome("load_xml(p)", "__init__.py", p="def.xml")
+            if k1 != "ok":
+                verdicts.append(f"the valid document does not load through load_xml: {d1}")
+            for later in ("nested container definition deleted", "used parameter type definition deleted", "parameter duplicated with a different type"):
+                docs["def.xml"] = cs[later][0]
+                k2, got2 = h.outcome("load_xml(p)", "__init__.py", p="def.xml")
+                if k2 != "raise":
+                    verdicts.append(f"after def.xml was overwritten with a document with `{later}`, load_xml('def.xml') still returns a definition")
+            docs["def.xml"] = clone_tree(g1)
+            attach_nsmap(docs["def.xml"])
+            k3, d3 = h.outcome("load_xml(p)", "__init__.py", p="def.xml")
+            if k3 == "ok" and k1 == "ok" and d3 is d1:
+                verdicts.append("two loads of the same path return one shared definition object (a change made through one is seen through the other)")
+            ctx.decide(not verdicts, "R17.c", site, "every load reads the file", "; ".join(verdicts[:2]))
+    except (Unsupported, StepLimit) as e:
+        ctx.unknown("R17.c", site, str(e))
 
 
 def guarded_inserts(ctx: Ctx):
